@@ -8,4 +8,17 @@ ViewsStale == {[m |-> n, r |-> Nodes \ {n}] : n \in Nodes}
 \* ... plus wrong ones: no usable replica (all s_down), the master listed among the replicas
 ViewsWrong == ViewsStale \cup {[m |-> n, r |-> {}] : n \in Nodes} \cup {[m |-> n, r |-> Nodes] : n \in Nodes}
 
+\* master-set names as sequences of name parts (the driver joins the parts: "mymaster", "mymaster-sessions", ...)
+Own       == <<"my", "master">>
+NameExt   == <<"my", "master", "-sessions">>   \* the client's name is a strict prefix of it
+NamePre   == <<"my">>                          \* it is a strict prefix of the client's name
+NameSuf   == <<"x-", "my", "master">>          \* the client's name is a strict suffix of it
+NameCase  == <<"MY", "MASTER">>                \* differs in case only
+NameOther == <<"other", "master">>
+NamesOwn     == {Own}
+NamesQuick   == {Own, NameExt}
+NamesOther   == {Own, NameOther}
+NamesAll     == {Own, NameExt, NamePre, NameSuf, NameCase, NameOther}
+NamesExtOnly   == {NameExt}      \* negative configs: only events of the other master set
+NamesOtherOnly == {NameOther}
 =============================================================================
